@@ -20,6 +20,9 @@ CONSTANTS
   BufPool = FALSE
   TrackNeg = TRUE
   Once = FALSE
+  WsScript <- WsNone
+  WsPings = 0
+  WsSharedMsg = FALSE
 INIT Init
 NEXT Next
 VIEW view
